@@ -504,6 +504,8 @@ func (st *State) Decide(op string, x, y *IntV) (val, known bool) {
 			eq, known = d.C == 0, true
 		} else if st.knownNeq(d) {
 			eq, known = false, true
+		} else if st.implied(d) && st.implied(termScale(d, -1)) {
+			eq, known = true, true // x-y <= 0 and y-x <= 0
 		} else if st.implied(termAdd(d, constTerm(1), 1)) || st.implied(termAdd(termScale(d, -1), constTerm(1), 1)) {
 			eq, known = false, true
 		} else if x.W == y.W {
